@@ -7,11 +7,11 @@ of a fixed list of substrings occur) as one `cmd` event, concatenates the events
 history file and lets TLC judge it against spec/Toolchain.tla through spec/Trace_Outcomes.tla.
 Nothing here decides whether an observation is acceptable; the only thing derived from stderr in
 Python is the *identity* of a rejected event (panic site), used to de-duplicate findings."""
-import base64, json, os, re, resource, shutil, signal, subprocess, threading, time
-from concurrent.futures import ThreadPoolExecutor
+import base64, json, os, re, shutil
 from . import lib
 
-WALL_LIMIT_S = 10
+CPU_LIMIT_S = 10     # CPU time per process (SIGXCPU)
+WALL_LIMIT_S = 60    # wall-clock backstop for processes that block without using CPU
 AS_LIMIT = 4 << 30
 THREADS = 8
 MARKS = ["panicked at", "has overflowed its stack", "memory allocation of", "capacity overflow"]
@@ -66,17 +66,14 @@ class Job:
 
 
 class Runner:
-    """Runs jobs in a pool of <= 8 threads, one process per job, 10 s wall limit, 4 GiB address
-    space limit.  The address-space limit is set as the *soft* RLIMIT_AS of this process while jobs
-    are being launched (children inherit it; restored before TLC is started) -- measured here:
-    a preexec_fn forces fork() of the Python process and costs ~45 ms per launch, an inherited
-    limit lets subprocess use vfork (~7 ms)."""
+    """Runs jobs through the launcher harness/src/bin/c04.rs: a pool of <= 8 threads, one process
+    of the real CLI per job; limits set in the child between fork and exec: 4 GiB address space,
+    10 s of CPU time (SIGXCPU => observed as a signal; a loaded machine cannot fake a hang) and a
+    wall-clock backstop for processes that block without using CPU (timed_out)."""
 
     def __init__(self, name):
         self.dir = lib.workdir(name)
-        self.env = lib.clean_env()
         self.n = 0
-        self.lock = threading.Lock()
 
     def _argv(self, job, d):
         inp = os.path.join(d, "in_%06d.%s" % (job.jid, job.ext))
@@ -97,24 +94,15 @@ class Runner:
         argv += job.opts
         return argv, paths, out
 
-    def run_one(self, job):
-        d = self.dir
-        argv, paths, out = self._argv(job, d)
-        job.argv = argv
+    def _write_inputs(self, job, paths):
         for (role, name, data), p in zip(job.inputs, paths):
             if role == "map":
                 data = data.replace(b"@SELF@", os.path.basename(p).encode())
             with open(p, "wb") as f:
                 f.write(data)
-        timed_out = False
-        t0 = time.time()
-        try:
-            p = subprocess.run([lib.TRUTH_CORE] + argv, stdin=subprocess.DEVNULL, stdout=subprocess.DEVNULL,
-                               stderr=subprocess.PIPE, env=self.env, timeout=WALL_LIMIT_S, cwd=d)
-            rc, err = p.returncode, p.stderr
-        except subprocess.TimeoutExpired as e:
-            timed_out, rc, err = True, -signal.SIGKILL, (e.stderr or b"")
-        wall = time.time() - t0
+
+    @staticmethod
+    def _cleanup(paths, out):
         for p in paths:
             try:
                 os.unlink(p)
@@ -124,34 +112,56 @@ class Runner:
             shutil.rmtree(out, ignore_errors=True)
         elif os.path.exists(out):
             os.unlink(out)
-        text = err.decode("utf-8", "replace")
-        lines = text.splitlines()
-        ids = job.content_ids()
-        job.stderr = text[:6000]
-        job.event = {
-            "ev": "cmd", "tool": job.tool, "verb": job.verb, "game": job.game, "opts": job.opts,
-            "inputs": ids, "input_id": "%d:%s" % (job.jid, ids[0]),
-            "exit_code": rc, "signal": -rc if rc < 0 else 0, "timed_out": timed_out,
-            "n_error_diags": sum(1 for l in lines if l.startswith("error")),
-            "n_warning_diags": sum(1 for l in lines if l.startswith("warning")),
-            "names_file": os.path.basename(paths[0]) in text,
-            "marks": [m for m in MARKS if m in text],
-            "stderr_head": re.sub(r"[^\x20-\x7e]", "?", text[:160]),
-            "wall_ms": int(wall * 1000),
-        }
-        return job
+
+    def launch(self, jobs, env=None, cpu=CPU_LIMIT_S, wall=WALL_LIMIT_S):
+        """-> {jid: raw result of the launcher}"""
+        d = self.dir
+        meta = {}
+        jf = os.path.join(d, "jobs_%d.ndjson" % self.n)
+        with open(jf, "w") as f:
+            for job in jobs:
+                argv, paths, out = self._argv(job, d)
+                job.argv = argv
+                self._write_inputs(job, paths)
+                meta[job.jid] = (paths, out)
+                f.write(json.dumps({"id": job.jid, "argv": [lib.TRUTH_CORE] + argv, "cwd": d}) + "\n")
+        p = lib.vh(["c04", jf, str(THREADS), str(cpu), str(AS_LIMIT), str(wall)], env=env, timeout=None)
+        res = {}
+        for line in p.stdout.splitlines():
+            r = json.loads(line)
+            if "launch_error" in r:
+                raise lib.ToolError("cannot launch the tool: " + r["launch_error"])
+            res[r["id"]] = r
+        for job in jobs:
+            self._cleanup(*meta[job.jid])
+        os.unlink(jf)
+        if len(res) != len(jobs):
+            raise lib.ToolError("launcher lost jobs: %d of %d" % (len(res), len(jobs)))
+        return res
 
     def run(self, jobs):
         for j in jobs:
             self.n += 1
             j.jid = self.n
-        soft, hard = resource.getrlimit(resource.RLIMIT_AS)
-        resource.setrlimit(resource.RLIMIT_AS, (AS_LIMIT, hard))
-        try:
-            with ThreadPoolExecutor(max_workers=THREADS) as ex:
-                list(ex.map(self.run_one, jobs))
-        finally:
-            resource.setrlimit(resource.RLIMIT_AS, (soft, hard))
+        # in chunks, so that at most a few thousand scratch files exist at a time
+        for k in range(0, len(jobs), 4000):
+            chunk = jobs[k:k + 4000]
+            res = self.launch(chunk)
+            for job in chunk:
+                r = res[job.jid]
+                text = r["stderr"]
+                ids = job.content_ids()
+                job.stderr = text[:6000]
+                job.event = {
+                    "ev": "cmd", "tool": job.tool, "verb": job.verb, "game": job.game, "opts": job.opts,
+                    "inputs": ids, "input_id": "%d:%s" % (job.jid, ids[0]),
+                    "exit_code": r["exit_code"], "signal": r["signal"], "timed_out": r["timed_out"],
+                    "n_error_diags": r["n_error"], "n_warning_diags": r["n_warning"],
+                    "names_file": ("in_%06d.%s" % (job.jid, job.ext)) in text,
+                    "marks": [m for m in MARKS if m in text],
+                    "stderr_head": re.sub(r"[^\x20-\x7e]", "?", text[:160]),
+                    "wall_ms": r["wall_ms"],
+                }
         return jobs
 
 
@@ -169,8 +179,36 @@ def histories(jobs):
     return [groups[h] for h in order]
 
 
-def write_history(path, hists):
-    """-> index: event line number (1-based) -> job"""
+def canaries(jobs):
+    """Synthetic corruptions of one ACCEPTABLE recorded event, appended to every batch as separate
+    histories: TLC must reject each of them, otherwise the judge is blind (tool error).  They are
+    not counted as evaluations."""
+    base = None
+    for j in jobs:
+        e = j.event
+        if e["exit_code"] == 0 and e["signal"] == 0 and not e["timed_out"] and e["n_error_diags"] == 0:
+            base = e
+            break
+    if base is None:
+        return []
+    out = []
+    for name, patch, reason in (
+            ("exit_code:=101", {"exit_code": 101, "marks": ["panicked at"]}, "Panic"),
+            ("signal:=6", {"exit_code": -6, "signal": 6}, "Abort"),
+            ("timed_out:=true", {"timed_out": True, "exit_code": -9, "signal": 9}, "Timeout"),
+            ("exit_code:=1", {"exit_code": 1}, "FailureWithoutDiagnostic"),
+            ("n_error_diags:=1", {"n_error_diags": 1}, "SuccessAfterErrorDiagnostic"),
+            ("names_file:=false", {"verb": "decompile", "exit_code": 1, "n_error_diags": 1, "names_file": False}, "ErrorDoesNotNameFile"),
+            ("inputs:=missing", {"inputs": ["no-such-content"]}, "PreconditionOfAction")):
+        ev = dict(base)
+        ev.update(patch)
+        ev["input_id"] = "canary:" + name
+        out.append((ev, reason))
+    return out
+
+
+def write_history(path, hists, extra):
+    """-> index: event line number (1-based) -> job (None for canaries)"""
     index = {}
     n = 0
     with open(path, "w") as f:
@@ -186,34 +224,49 @@ def write_history(path, hists):
                 n += 1
                 index[n] = j
                 f.write(json.dumps(j.event) + "\n")
+        for ev, reason in extra:
+            n += 1
+            f.write(json.dumps({"ev": "reset", "hist": 0, "store": [x for x in ev["inputs"] if x != "no-such-content"]}) + "\n")
+            n += 1
+            index[n] = (ev, reason)
+            f.write(json.dumps(ev) + "\n")
     return index, n
 
 
-UNMATCHED = re.compile(r'^<<"UNMATCHED", (\d+), "([^"]*)", "(\w+)">>', re.M)
+UNMATCHED = re.compile(r'^<<\s*"UNMATCHED",\s*(\d+),\s*"([^"]*)",\s*"(\w+)"\s*>>', re.M)    # TLC wraps long tuples
 
 
 def judge(chk, jobs, tag):
     """Let TLC validate the recorded histories.  Returns list of (job, reason) for every history
     that Trace_Outcomes rejects (at its first unmatched event)."""
     hists = histories(jobs)
+    extra = canaries(jobs)
     wd = lib.workdir("hist_" + tag)
     path = os.path.join(wd, "history.ndjson")
-    index, nlines = write_history(path, hists)
+    index, nlines = write_history(path, hists, extra)
     res = lib.tlc("Trace_Outcomes", env={"HIST": path}, workers=8, timeout=1500, extra=["-continue"], name="trace_" + tag)
     chk.tlc_stats(res)
     m = re.search(r'<<"HISTORIES", (\d+), "EVENTS", (\d+)>>', res.out)
-    if not m or int(m.group(1)) != len(hists) or int(m.group(2)) != len(jobs):
+    if not m or int(m.group(1)) != len(hists) + len(extra) or int(m.group(2)) != len(jobs) + len(extra):
         raise lib.ToolError("Trace_Outcomes did not load the history that was written\n" + res.out[-2000:])
-    rejected = []
+    rejected, canary_hits = [], 0
     for m in UNMATCHED.finditer(res.out):
         line, input_id, reason = int(m.group(1)), m.group(2), m.group(3)
         job = index[line]
+        if isinstance(job, tuple):
+            if job[0]["input_id"] != input_id or job[1] != reason:
+                raise lib.ToolError("canary %s was rejected for reason %s, expected %s" % (input_id, reason, job[1]))
+            canary_hits += 1
+            continue
         if job.event["input_id"] != input_id:
             raise lib.ToolError("history index mismatch at line %d" % line)
         rejected.append((job, reason))
+    if canary_hits != len(extra):
+        raise lib.ToolError("Trace_Outcomes accepted a corrupted history (%d of %d canaries rejected): the judge is blind"
+                            % (canary_hits, len(extra)))
     nviol = len(re.findall(r"Invariant Accepted is violated", res.out))
-    if nviol != len(rejected):
-        raise lib.ToolError("TLC reported %d rejections but %d UNMATCHED lines were parsed" % (nviol, len(rejected)))
+    if nviol != len(rejected) + canary_hits:
+        raise lib.ToolError("TLC reported %d rejections but %d UNMATCHED lines were parsed" % (nviol, len(rejected) + canary_hits))
     other = re.findall(r"Invariant (?!Accepted)(\w+) is violated", res.out)
     if other:
         raise lib.ToolError("toolchain invariant %s violated by a recorded history:\n%s" % (other[0], res.out[-3000:]))
@@ -223,7 +276,7 @@ def judge(chk, jobs, tag):
     for hs in hists:
         for k, j in enumerate(hs):
             pos[id(j)] = (k, len(hs))
-    expected = len(hists) + len(jobs)
+    expected = len(hists) + len(jobs) + len(extra)
     for j, _ in rejected:
         k, n = pos[id(j)]
         expected -= (n - k)
@@ -233,6 +286,7 @@ def judge(chk, jobs, tag):
     chk.add("histories_validated", len(hists))
     chk.add("events_validated", len(jobs))
     chk.add("histories_rejected", len(rejected))
+    chk.add("canary_histories_rejected", canary_hits)
     return rejected
 
 
@@ -261,13 +315,16 @@ def norm_site(path):
 
 
 def finding_key(job, reason, runner=None):
-    """Identity of a rejected event.  Panics: file:line of the location in the panic message
-    (the innermost frame; a location outside /repo gets the first truth:: frame of a backtrace
-    appended) plus the class of the message.  Everything else: reason, command and the class of
-    input / first stderr line."""
+    """Identity of a rejected event (used only to de-duplicate / look up findings).
+    Panics: file:line of the location in the panic message (the innermost frame; a location
+    outside /repo gets the first truth:: frame of a backtrace appended) plus the class of the
+    message.  Crashes without a location (abort, stack overflow, allocation failure, time-out):
+    reason, command and the class of the last diagnostic printed before the crash (a proxy for
+    where the tool was).  Contract-shape rejections (failure without an error diagnostic, error
+    that does not name the file, ...): reason, command and the class of the first relevant line."""
     text = job.stderr or ""
+    lines = [l for l in text.splitlines() if l.strip()]
     tv = "%s-%s" % (job.tool, job.verb)
-    gclass = job.gen.get("class", "?")
     if reason == "Panic":
         m = PANIC.search(text)
         if m:
@@ -278,53 +335,89 @@ def finding_key(job, reason, runner=None):
                 if fr:
                     key = "panic:%s:%s@%s:%s" % (site, m.group(2), fr, msg_class(m.group(4)))
             return key
-        return "panic:unknown:%s:%s" % (tv, msg_class(text.splitlines()[0] if text else ""))
+        return "panic:unknown:%s:%s" % (tv, msg_class(lines[0] if lines else ""))
     if reason in ("StackOverflow", "OutOfMemory", "Abort", "Timeout"):
-        first = ""
-        for l in text.splitlines():
-            if l.strip():
-                first = l
+        ctx = "none"
+        for l in lines:
+            if any(mk in l for mk in MARKS):
                 break
-        return "%s:%s:%s:%s" % (reason, tv, gclass, msg_class(first)[:40])
+            if l.startswith("warning") or l.startswith("error"):
+                ctx = msg_class(l)
+        if ctx == "none" and job.gen.get("class", "").startswith(("grammar", "illformed", "mapfile")):
+            ctx = job.gen.get("label", job.gen.get("defect", job.gen["class"]))
+            ctx = re.sub(r"\d+", "N", ctx)
+        return "%s:%s:%s" % (reason, tv, ctx)
     first = ""
-    for l in text.splitlines():
+    for l in lines:
         if l.startswith("error"):
             first = l
             break
-    if not first and text.strip():
-        first = text.strip().splitlines()[0]
-    if reason == "ErrorDoesNotNameFile":
-        return "%s:%s:%s" % (reason, tv, msg_class(first))
-    return "%s:%s:%s:%s" % (reason, tv, gclass, msg_class(first))
+    if not first and lines:
+        first = lines[0]
+    return "%s:%s:%s" % (reason, tv, msg_class(first))
 
 
 def backtrace_frame(job, runner):
-    d = runner.dir
-    jid = job.jid
-    argv, paths, out = runner._argv(job, d)
-    for (role, name, data), p in zip(job.inputs, paths):
-        with open(p, "wb") as f:
-            f.write(data)
-    try:
-        p = subprocess.run([lib.TRUTH_CORE] + argv, stdin=subprocess.DEVNULL, stdout=subprocess.DEVNULL, stderr=subprocess.PIPE,
-                           env=lib.clean_env({"RUST_BACKTRACE": "1"}), timeout=30, cwd=d)
-        for l in p.stderr.decode("utf-8", "replace").splitlines():
-            m = re.match(r"\s*\d+:\s+(truth::[\w:<>]+)", l)
-            if m:
-                return re.sub(r"::h[0-9a-f]{16}$", "", m.group(1))
-    except subprocess.TimeoutExpired:
-        pass
-    finally:
-        for p_ in paths:
-            try:
-                os.unlink(p_)
-            except OSError:
-                pass
-        if os.path.isdir(out):
-            shutil.rmtree(out, ignore_errors=True)
-        elif os.path.exists(out):
-            os.unlink(out)
+    """first truth:: frame of a backtrace of the same invocation (RUST_BACKTRACE=1)"""
+    r = runner.launch([job], env={"RUST_BACKTRACE": "1"})[job.jid]
+    for l in r["stderr"].splitlines():
+        m = re.match(r"\s*\d+:\s+(truth::[\w:<>]+)", l)
+        if m:
+            return re.sub(r"::h[0-9a-f]{16}$", "", m.group(1))
     return None
+
+
+FN_DEF = re.compile(r"^\s*(?:pub(?:\([^)]*\))?\s+)?(?:default\s+)?(?:const\s+)?(?:async\s+)?(?:unsafe\s+)?(?:extern\s+\"[^\"]*\"\s+)?fn\s+(\w+)")
+_SRC = {}
+
+
+def enclosing_fn(site, line):
+    """name of the function whose definition precedes src line `line` of /repo/<site> (None if unknown)"""
+    if not site.startswith("src/"):
+        return None
+    if site not in _SRC:
+        try:
+            _SRC[site] = open(os.path.join(lib.REPO, site), encoding="utf-8", errors="replace").read().splitlines()
+        except OSError:
+            _SRC[site] = None
+    src = _SRC[site]
+    if not src:
+        return None
+    for i in range(min(line, len(src)) - 1, -1, -1):
+        m = FN_DEF.match(src[i])
+        if m:
+            return m.group(1)
+    return None
+
+
+PANIC_KEY = re.compile(r"^panic:(src/[^:]+):(\d+):(.*)$", re.S)
+
+
+def canonical_key(chk, key):
+    """Line numbers move when unrelated code is edited.  A listed open finding records, next to
+    its key `panic:<file>:<line>:<message class>`, the enclosing function (`site_fn`); a panic in
+    the same file + function with the same message class is the same finding even if its line
+    number moved, and is reported under the listed key (the nearest listed line wins)."""
+    m = PANIC_KEY.match(key)
+    if not m:
+        return key
+    site, line, cls = m.group(1), int(m.group(2)), m.group(3)
+    for f in chk.findings:
+        if f.get("property") == chk.pid and f.get("key") == key:
+            return key
+    fn = enclosing_fn(site, line)
+    if fn is None:
+        return key
+    best = None
+    for f in chk.findings:
+        if f.get("property") != chk.pid or f.get("status") != "open" or f.get("site_fn") != fn:
+            continue
+        m2 = PANIC_KEY.match(f.get("key", ""))
+        if m2 and m2.group(1) == site and m2.group(3) == cls:
+            d = abs(int(m2.group(2)) - line)
+            if best is None or d < best[0]:
+                best = (d, f["key"])
+    return best[1] if best else key
 
 
 def report_rejections(chk, rejected, runner, prefer_small=True):
@@ -332,7 +425,7 @@ def report_rejections(chk, rejected, runner, prefer_small=True):
     best = {}
     for job, reason in rejected:
         chk.add("outcome_rejected_" + reason)
-        key = finding_key(job, reason, runner)
+        key = canonical_key(chk, finding_key(job, reason, runner))
         if key not in best or len(job.data) < len(best[key][0].data):
             best[key] = (job, reason)
     for key in sorted(best):
@@ -370,3 +463,96 @@ def replay_job(chk, replay, tag):
     chk.set("distinct_nontrivial", 1)
     chk.set("rule", "replay of one recorded case")
     return rejected
+
+
+# ----------------------------------------------------------------------------- maintenance of findings.d (not used by the checks)
+
+def record_findings(pid):
+    """python3 -m checks.toolchain record Cxx : turn the replay files of unlisted violations
+    (replays/Cxx/*.json written by the last runs) into open entries of findings.d/Cxx.json, each
+    with its smallest reproducer.  Run by a person after triage, never by a check."""
+    fd = os.path.join(lib.VERIF, "findings.d", pid + ".json")
+    cur = json.load(open(fd)) if os.path.exists(fd) else []
+    have = {f["key"] for f in cur}
+    rd = os.path.join(lib.REPLAYS, pid)
+    for f in sorted(os.listdir(rd)) if os.path.isdir(rd) else []:
+        r = json.load(open(os.path.join(rd, f)))
+        if r["key"] in have or "job" not in r.get("case", {}):
+            continue
+        have.add(r["key"])
+        cur.append(entry_from_replay(pid, r))
+    cur.sort(key=lambda e: e["key"])
+    with open(fd, "w") as f:
+        json.dump(cur, f, indent=1, ensure_ascii=False)
+        f.write("\n")
+    print("%s: %d entries" % (fd, len(cur)))
+
+
+def entry_from_replay(pid, r):
+    job = r["case"]["job"]
+    e = {"property": pid, "key": r["key"], "status": "open"}
+    m = PANIC_KEY.match(r["key"])
+    if m:
+        fn = enclosing_fn(m.group(1), int(m.group(2)))
+        if fn:
+            e["site_fn"] = fn
+    repro = {"command": job["command"]}
+    if "input_text" in job:
+        repro["input_text"] = job["input_text"]
+    elif "input_hex" in job:
+        repro["input_hex"] = job["input_hex"]
+    else:
+        repro["input_b64"] = job["input_b64"]
+    if job.get("maps"):
+        repro["mapfiles"] = [[n, base64.b64decode(x).decode("utf-8", "replace")] for n, x in job["maps"]]
+    stderr = (r["case"].get("stderr") or "").strip().splitlines()
+    shown = repro.get("input_text", "").strip()
+    if len(shown) > 160:
+        shown = "..." + shown[-160:]
+    e["what"] = ("%s: `%s`%s -> %s" % (r["case"]["reason"], job["command"].replace("/verif/work/", ""),
+                 (" on `%s`" % shown) if shown else (" on %d bytes (%s)" % (len(base64.b64decode(job["input_b64"])), json.dumps(job.get("gen")))),
+                 " | ".join(stderr[:2])[:240]))
+    e["repro"] = repro
+    e["job"] = {k: job[k] for k in ("tool", "verb", "game", "opts", "ext", "gen", "input_b64", "maps", "shared_maps")}
+    return e
+
+
+def rekey_findings(pid):
+    """python3 -m checks.toolchain rekey Cxx : re-run the reproducer of every listed finding against the
+    current build; update keys whose panic line moved, mark findings that no longer reproduce as fixed."""
+    fd = os.path.join(lib.VERIF, "findings.d", pid + ".json")
+    cur = json.load(open(fd))
+    runner = Runner(pid.lower() + "_rekey")
+    jobs = []
+    for e in cur:
+        if "job" in e:
+            j = Job.from_description(dict(e["job"]))
+            j.hist = ("rekey", len(jobs))
+            jobs.append((e, j))
+    runner.run([j for _, j in jobs])
+    chk = lib.Check(pid, "exploration", "quick", 1)
+    rejected = {id(j): r for j, r in judge(chk, [j for _, j in jobs], pid.lower() + "_rekey")}
+    for e, j in jobs:
+        if id(j) not in rejected:
+            if e["status"] == "open":
+                e["status"] = "fixed"
+                print("no longer reproduces:", e["key"])
+            continue
+        key = finding_key(j, rejected[id(j)], runner)
+        if e["status"] != "open":
+            print("reproduces again:", key)
+            e["status"] = "open"
+        if key != e["key"]:
+            print("moved: %s -> %s" % (e["key"], key))
+            e["key"] = key
+            m = PANIC_KEY.match(key)
+            if m:
+                e["site_fn"] = enclosing_fn(m.group(1), int(m.group(2))) or e.get("site_fn")
+    with open(fd, "w") as f:
+        json.dump(cur, f, indent=1, ensure_ascii=False)
+        f.write("\n")
+
+
+if __name__ == "__main__":
+    import sys
+    {"record": record_findings, "rekey": rekey_findings}[sys.argv[1]](sys.argv[2])
